@@ -66,13 +66,14 @@ func c12check(v *pos.Validators, want []c12pair) string {
 
 func runC12(c *ev.Ctx) {
 	c.Rule = "random multisets of (ID, weight) pairs incl. zero weights, overwrites and deletions-by-zero, inserted in every permutation (<=5 distinct insertions) or 4 random permutations; every getter (SortedIDs, SortedWeights, Idxs, IDs, GetIdx, GetID, Get, Exists, Len, TotalWeight) is compared with the oracle's sort (weight desc, id asc) of the final non-zero pairs; " +
-		"RLP encode->decode, Copy() and Builder().Build() must preserve everything; builder reuse: after editing the builder a set was built from, set.Builder() or set.Copy().Builder(), the set (every getter, its encoding, counting it whole) is unchanged and the next Build has exactly the edited pairs; decoding into a destination (variable or struct field) that already holds another set yields exactly the encoded set; BigBuilder with stakes up to 2^256 (dust next to whales, many word-sized stakes summing past 2^64, exact powers of two): no panic, weight(id) == stake >> shift with ONE shift = max(0, bitlen(total)-31), zero-weight members dropped, order of weights follows order of stakes. " +
+		"RLP encode->decode, Copy() and Builder().Build() must preserve everything; builder reuse: after editing the builder a set was built from, set.Builder() or set.Copy().Builder(), the set (every getter, its encoding, counting it whole) is unchanged and the next Build has exactly the edited pairs; decoding into a destination (variable or struct field) that already holds another set yields exactly the encoded set; hand-made encodings (any order, repeated IDs, zero weights) decode to the pairs applied in list order, canonical and countable as a whole; BigBuilder with stakes up to 2^256 (dust next to whales, many word-sized stakes summing past 2^64, exact powers of two): no panic, weight(id) == stake >> shift with ONE shift = max(0, bitlen(total)-31), zero-weight members dropped, order of weights follows order of stakes. " +
 		"non-trivial = distinct pair-multiset fingerprints that contain a weight tie or a zero/overwritten entry (plain part), or a big set whose shift is > 0 (big part)"
 	c.Assumptions = []string{"oracle: sort by (weight desc, id asc) over the final map of non-zero pairs; big-integer arithmetic of math/big"}
 	n := c.Pick(30000, 1500000)
 	c.Parallel(n, 0, func(i int) { c12Plain(c, c.Rand("plain", i), i) })
 	na := c.Pick(20000, 500000)
 	c.Parallel(na, 0, func(i int) { c12Aliasing(c, c.Rand("alias", i), i) })
+	c.Parallel(na, 0, func(i int) { c12HandMadeRLP(c, c.Rand("handmade", i), i) })
 	nb := c.Pick(30000, 1000000)
 	c.Parallel(nb, 0, func(i int) { c12Big(c, c.Rand("big", i), i) })
 }
@@ -95,7 +96,12 @@ func c12Plain(c *ev.Ctx, r *rand.Rand, caseN int) {
 		case 2:
 			w = (1<<31 - 1) / uint64(k)
 		}
-		seq = append(seq, ins{idx.ValidatorID(1 + r.Intn(6)), w})
+		id := idx.ValidatorID(1 + r.Intn(6))
+		if r.Intn(4) == 0 {
+			// IDs use the full 32 bits: the tie-break and any packed sort key must cope with them
+			id = []idx.ValidatorID{0x7fffffff, 0x80000000, 0x80000001, 0xf0000000, 0xffffffff, 0}[r.Intn(6)]
+		}
+		seq = append(seq, ins{id, w})
 	}
 	final := func(s []ins) map[idx.ValidatorID]uint64 {
 		m := map[idx.ValidatorID]uint64{}
@@ -253,11 +259,21 @@ func c12Big(c *ev.Ctx, r *rand.Rand, caseN int) {
 		m["stakes"] = ss
 		return m
 	}
-	if bb.TotalWeight().Cmp(total) != 0 {
+	var gotTotal *big.Int
+	if p, _ := ev.Try(func() { gotTotal = bb.TotalWeight() }); p != nil || gotTotal == nil {
 		m := desc()
-		m["got_total"] = bb.TotalWeight().String()
+		m["panic"], m["got_total"] = fmt.Sprint(p), "nil"
 		c.Violation("big-total-wrong", m)
 		return
+	}
+	if gotTotal.Cmp(total) != 0 {
+		m := desc()
+		m["got_total"] = gotTotal.String()
+		c.Violation("big-total-wrong", m)
+		return
+	}
+	if len(stakes) == 0 {
+		c.Count("big_builders_without_any_stake", 1)
 	}
 	var v *pos.Validators
 	if p, _ := ev.Try(func() { v = bb.Build() }); p != nil {
